@@ -291,7 +291,16 @@ pub fn run(tier: &str, seed: u64) -> i32 {
     for case in 0..n_store {
         store_leg(&mut rep, mix(seed, 7000 + case as u64), if t { 60 } else { 40 });
     }
+    // --- the client's encoding against the server's parser, over the real HTTP path ----------------
+    for case in 0..(if t { 12 } else { 3 }) {
+        wire_leg(&mut rep, mix(seed, 9100 + case as u64), if t { 120 } else { 60 });
+    }
+    // --- Miri: the TTL codec under the undefined-behaviour interpreter (thorough tier) ----------------
+    if t {
+        miri_leg(&mut rep);
+    }
     rep.require("ttl cases", rep.counters.get("ttl.values").copied().unwrap_or(0) > 0);
+    rep.require("wire leg compared reads", rep.counters.get("wire.reads_compared").copied().unwrap_or(0) > 0);
     rep.require("store leg reached deep metas", rep.counters.get("store.deep_meta_cases").copied().unwrap_or(0) > 0);
     rep.require("store leg reopened", rep.counters.get("store.reopens").copied().unwrap_or(0) > 0);
     rep.finish()
@@ -461,4 +470,139 @@ fn reads_ok(rep: &mut Report, sess: &mut Session, accepted: &[Frame], when: &str
         }
     }
     true
+}
+
+
+/// read options and TTLs travel from the repository's own client (xs::client) to the real server and must
+/// mean the same thing there: `client::cat(options)` against a direct store read with the same option fields,
+/// `client::append(ttl, meta, context)` against the stored frame.
+fn wire_leg(rep: &mut Report, seed: u64, n: usize) {
+    let mut rng = Rng::new(seed);
+    let dir = work_dir("e6w");
+    let mut sess = match Session::spawn(&dir, true) {
+        Ok(s) => s,
+        Err(e) => {
+            rep.inconclusive(format!("session: {}", e));
+            return;
+        }
+    };
+    let rt = tokio::runtime::Builder::new_current_thread().enable_all().build().unwrap();
+    let addr = dir.to_string_lossy().to_string();
+    let r: Result<(), crate::session::SessionError> = (|| {
+        // contexts and frames
+        let mut ctxs: Vec<Scru128Id> = vec![ZERO_CONTEXT];
+        for _ in 0..2 {
+            let v = sess.call(json!({"op": "append", "frame": Frame::builder("xs.context", ZERO_CONTEXT).build()}))?;
+            if let Ok(f) = serde_json::from_value::<Frame>(v["ok"].clone()) {
+                ctxs.push(f.id);
+            }
+        }
+        let mut ids: Vec<Scru128Id> = vec![];
+        for i in 0..40 {
+            // appends through the client: ttl, meta and context must arrive as given
+            let ttl = gen_ttl(&mut rng);
+            let ttl = match ttl {
+                TTL::Time(d) if d.as_millis() < 10_000_000 => TTL::Time(Duration::from_millis(1_000_000_000_000)),
+                TTL::Head(k) if k < 1000 => TTL::Head(100_000 + k),
+                other => other,
+            };
+            let ctx = *rng.pick(&ctxs);
+            let meta = gen::meta(&mut rng).filter(|m| m.is_object());
+            let body = format!("wire {}", i).into_bytes();
+            rep.eval();
+            let cs = ctx.to_string();
+            let res = rt.block_on(xs::client::append(&addr, "wire", std::io::Cursor::new(body.clone()), meta.as_ref(), Some(ttl.clone()), if ctx == ZERO_CONTEXT { None } else { Some(cs.as_str()) }));
+            match res {
+                Ok(bytes) => match serde_json::from_slice::<Frame>(&bytes) {
+                    Ok(f) => {
+                        rep.count("wire.appends_compared", 1);
+                        if f.ttl != Some(ttl.clone()) || f.meta != meta || f.context_id != ctx || f.topic != "wire" {
+                            rep.violation("C12/wire/append-arrived-different-from-what-the-client-sent", json!({"sent": {"ttl": ttl.to_query(), "meta": meta, "context": cs}, "stored": trim(&f)}));
+                        }
+                        if ttl != TTL::Ephemeral {
+                            ids.push(f.id);
+                        }
+                    }
+                    Err(e) => rep.violation("C12/wire/append-reply-is-not-a-frame", json!({"error": e.to_string()})),
+                },
+                Err(e) => rep.violation("C12/wire/client-append-failed", json!({"ttl": ttl.to_query(), "error": e.to_string()})),
+            }
+        }
+        for _ in 0..n {
+            rep.eval();
+            let last = if rng.chance(500) && !ids.is_empty() { Some(*rng.pick(&ids)) } else { None };
+            let ctx = if rng.chance(600) { Some(*rng.pick(&ctxs)) } else { None };
+            // follow only in shapes that end by themselves (limit within what is stored)
+            let direct = sess.call(json!({"op": "read_sync", "digest": true, "last_id": last.map(|l| l.to_string()), "ctx": ctx.map(|c| c.to_string())}))?;
+            let avail = crate::model::parse_pairs(&direct["frames"]).len();
+            let limit = match rng.below(4) {
+                0 => None,
+                1 => Some(1usize),
+                2 => Some(avail.max(1)),
+                _ => Some(1 + rng.below(avail.max(1))),
+            };
+            let follow = limit.map(|l| l <= avail && avail > 0).unwrap_or(false) && rng.chance(400);
+            let tail = !follow && rng.chance(100);
+            let opts = ReadOptions::builder()
+                .follow(if follow { if rng.chance(500) { FollowOption::On } else { FollowOption::WithHeartbeat(Duration::from_millis(60_000)) } } else { FollowOption::Off })
+                .tail(tail)
+                .maybe_last_id(last)
+                .maybe_limit(limit)
+                .maybe_context_id(ctx)
+                .build();
+            let expect: Vec<(u128, u64)> = if tail { vec![] } else { crate::model::parse_pairs(&direct["frames"]).into_iter().take(limit.unwrap_or(usize::MAX)).collect() };
+            let got = rt.block_on(async {
+                let mut rx = xs::client::cat(&addr, opts.clone(), false).await.map_err(|e| e.to_string())?;
+                let mut buf = vec![];
+                loop {
+                    match tokio::time::timeout(Duration::from_secs(20), rx.recv()).await {
+                        Ok(Some(b)) => buf.extend_from_slice(&b),
+                        Ok(None) => return Ok::<_, String>((buf, true)),
+                        Err(_) => return Ok((buf, false)),
+                    }
+                }
+            });
+            match got {
+                Ok((buf, ended)) => {
+                    let frames: Vec<(u128, u64)> = crate::http::ndjson(&buf).into_iter().filter_map(|v| serde_json::from_value::<Frame>(v).ok()).filter(|f| f.topic != "xs.pulse" && f.topic != "xs.threshold").map(|f| (f.id.to_u128(), crate::session::frame_digest(&f))).collect();
+                    rep.count("wire.reads_compared", 1);
+                    rep.nontrivial(fnv(&format!("wire{:?}", opts)));
+                    if frames != expect {
+                        rep.violation("C12/wire/read-options-mean-something-else-on-the-server", json!({"options": format!("{:?}", opts), "query": opts.to_query_string(), "client_got": frames.len(), "direct_read": expect.len(), "first_ids": frames.iter().take(3).map(|f| crate::model::id_str(f.0)).collect::<Vec<_>>()}));
+                    } else if !ended {
+                        rep.violation("C12/wire/stream-did-not-end", json!({"options": format!("{:?}", opts)}));
+                    }
+                }
+                Err(e) => rep.violation("C12/wire/client-cat-failed", json!({"options": format!("{:?}", opts), "error": e})),
+            }
+        }
+        Ok(())
+    })();
+    if let Err(e) = r {
+        rep.inconclusive(format!("wire leg: {}", e));
+    }
+    sess.close();
+    rm_dir(&dir);
+}
+
+fn miri_leg(rep: &mut Report) {
+    let out = std::process::Command::new("timeout").arg("900").arg("cargo").arg("+nightly").arg("miri").arg("run").current_dir(format!("{}/miri", crate::report::VERIF_DIR)).env("CARGO_NET_OFFLINE", "true").output();
+    match out {
+        Ok(o) => {
+            let stdout = String::from_utf8_lossy(&o.stdout).to_string();
+            let stderr = String::from_utf8_lossy(&o.stderr).to_string();
+            if let Some(l) = stdout.lines().find(|l| l.starts_with("MIRI-TTL ok")) {
+                let n: u64 = l.split_whitespace().last().and_then(|x| x.parse().ok()).unwrap_or(0);
+                rep.count("miri.ttl_cases", n);
+                rep.evaluations += n;
+            } else if stderr.contains("Undefined Behavior") || stderr.contains("panicked") {
+                rep.violation("C12/miri/ttl-codec", json!({"stderr": stderr.chars().rev().take(1500).collect::<String>().chars().rev().collect::<String>()}));
+            } else {
+                rep.extra.insert("miri".into(), json!(format!("not run: {}", stderr.chars().rev().take(300).collect::<String>().chars().rev().collect::<String>())));
+            }
+        }
+        Err(e) => {
+            rep.extra.insert("miri".into(), json!(format!("not available: {}", e)));
+        }
+    }
 }
